@@ -410,7 +410,7 @@ def check_C03(sc, v, tier, seed, replay):
               "several bit offsets; (b) every one of the 78 NGAP message types and 24 transfer containers with random in-constraint "
               "values generated by reflection (every 7th with deliberate violations); open types of length 0..16380; "
               "(c) the struct tags against a hand transcription of TS 38.413 (Ngap38413Types.tla): constraints of about 470 named simple types "
-              "and lists, SEQUENCE/CHOICE definitions of the 62 structured types on the emulator's path, all 153 IE identifiers and 78 messages "
+              "and lists, SEQUENCE/CHOICE definitions of 225 structured types, all 153 IE identifiers and 78 messages "
               "against every referenceFieldValue of the 267 open-type containers, generic rules (every ENUMERATED bounded, every SEQUENCE with "
               "iE-Extensions/protocolIEs extensible at every use site, every CHOICE non-extensible over exactly its alternatives); "
               "distinct = distinct value tree")
